@@ -76,7 +76,7 @@ TOUCHED = {
 # (base, palette level, edit depth, main() up to depth, reversed file up to depth, permutations: max group in single-edit
 #  states; 0 = initial state only, None = none) -- cheapest stage first
 PLAN = {
-    'quick': [('pack', 'lean', 1, 1, 99, 0), ('simple2', 'quick', 1, 1, 99, 0), ('rich', 'quick', 1, 0, 99, 0),
+    'quick': [('pack', 'lean', 1, 0, 99, None), ('simple2', 'quick', 1, 1, 99, 0), ('rich', 'quick', 1, 0, 99, 0),
               ('simple', 'quick', 2, 1, 99, 3)],
     'thorough': [('pack', 'quick', 1, 1, 99, 4), ('simple2', 'quick', 2, 1, 99, 4), ('rich', 'lean', 2, 1, 99, 4), ('simple', 'lean', 3, 1, 2, 6),
                  ('simple', 'full', 2, 0, 99, None)],
